@@ -24,13 +24,14 @@ mod xmlfile;
 mod xmlgen;
 mod xmlbin;
 mod xmlmig;
+mod migcustom;
 mod xmloracle;
 mod xmlspecgen;
 
 fn main() {
     std::panic::set_hook(Box::new(|_| {}));
     let args: Vec<String> = std::env::args().collect();
-    let handled = serdetok::cli(&args) || extreme::cli(&args) || binbytes::cli(&args) || binspec::cli(&args) || serde17::cli(&args) || xmlfile::cli(&args) || binfile::cli(&args) || fault::cli(&args) || xmlchannel::cli(&args) || uidgen::cli(&args) || dbdump::cli(&args) || domops::cli(&args) || sched::cli(&args) || attr::cli(&args);
+    let handled = migcustom::cli(&args) || serdetok::cli(&args) || extreme::cli(&args) || binbytes::cli(&args) || binspec::cli(&args) || serde17::cli(&args) || xmlfile::cli(&args) || binfile::cli(&args) || fault::cli(&args) || xmlchannel::cli(&args) || uidgen::cli(&args) || dbdump::cli(&args) || domops::cli(&args) || sched::cli(&args) || attr::cli(&args);
     if !handled {
         eprintln!("usage: rbxverif <kind>-<gen|run> ...");
         std::process::exit(2);
